@@ -96,7 +96,7 @@ def run(ctx):
                 "random protein-like topologies (chain breaks, terminal residues, missing and duplicated atoms, several chains, non-protein residues); "
                 "non-trivial = distinct (system, index tuple) with a cell or a non-planar geometry")
     ctx.assumptions += ["libm acos/atan2f: the returned angle is compared through cos (angles) and through atan2 of the exact invariants (dihedrals) with 3e-4 rad tolerance "
-                        "away from ill-conditioned geometry (|sin| of a bond angle below 2e-2, or bond vectors nearly parallel in a dihedral), which is excluded and counted"]
+                        "away from ill-conditioned geometry (|sin| of a bond angle below 2e-2, bond vectors nearly parallel in a dihedral, or a float32 condition estimate - coordinate magnitude x 2^-22 over the plane-normal lengths - above 1e-4 rad), which is excluded and counted"]
     rng = ctx.rng
     seen = {}
 
@@ -150,14 +150,20 @@ def run(ctx):
             v1, v2 = bond(box, P[1], P[0]), bond(box, P[1], P[2])
             c = float(v1 @ v2 / np.linalg.norm(v1) / np.linalg.norm(v2))
             want = float(np.arccos(np.clip(c, -1, 1)))
-            ill = abs(np.sin(want)) < 2e-2
+            # float32 conditioning: coordinates (and lattice shifts) of magnitude m carry errors ~ m * 2^-22 in the bond vectors
+            delta = 2.0 ** -22 * max(1.0, float(np.abs(P).max()), 0.0 if box is None else float(np.abs(box).max()))
+            ill = abs(np.sin(want)) < 2e-2 or delta * (1 / np.linalg.norm(v1) + 1 / np.linalg.norm(v2)) / max(abs(np.sin(want)), 1e-9) > 1e-4
             nontriv = (k, idx) if (box is not None or not ill) else None
         else:
             b1, b2, b3 = bond(box, P[0], P[1]), bond(box, P[1], P[2]), bond(box, P[2], P[3])
             c1, c2 = np.cross(b2, b3), np.cross(b1, b2)
             p1, p2 = float(b1 @ c1) * np.linalg.norm(b2), float(c1 @ c2)
             want = float(np.arctan2(p1, p2))
-            ill = np.hypot(p1, p2) < 2e-3 * (np.linalg.norm(b1) * (b2 @ b2) * np.linalg.norm(b3))
+            delta = 2.0 ** -22 * max(1.0, float(np.abs(P).max()), 0.0 if box is None else float(np.abs(box).max()))
+            n1, n2, n3 = np.linalg.norm(b1), np.linalg.norm(b2), np.linalg.norm(b3)
+            # the dihedral is the angle between the plane normals c1, c2: a perturbation delta of the bond vectors turns them by at most this
+            sens = delta * ((n2 + n3) / max(np.linalg.norm(c1), 1e-30) + (n1 + n2) / max(np.linalg.norm(c2), 1e-30))
+            ill = np.hypot(p1, p2) < 2e-3 * (n1 * (b2 @ b2) * n3) or sens > 1e-4
             nontriv = (k, idx) if (box is not None or abs(np.sin(want)) > 0.1) else None
         ctx.case(rp if nontriv and len(ctx.samples) < 4 else None, nontriv)
         if ill:
